@@ -125,6 +125,7 @@ var toggles = []string{
 	"dep_pad",               // two comment lines shift every position in dep.go
 	"dep_body",              // constant in an unexported function body
 	"dep_broken",            // type error in dep
+	"dep_go126",             // dep/new126.go uses new(expr), which needs go1.26: dep stops compiling under a lower -go or go directive
 	"mid_pad",               // two comment lines shift every position in mid.go
 	"mid_uses_old",          // mid calls dep.Old
 	"mid_sa4000",            // an SA4000 trigger in mid
@@ -140,7 +141,7 @@ var toggles = []string{
 
 var depFactToggles = map[string]bool{"dep_deprecated": true, "dep_deprecated_method": true, "dep_impure": true, "dep_maybe_nil": true}
 
-var confLevels = []string{"root", "top", "dep", "mid", "parent"}
+var confLevels = []string{"root", "top", "dep", "mid", "parent", "lib"}
 
 func lst(xs ...string) *[]string {
 	l := append([]string{}, xs...) // never nil: an empty list is written as `key = []`, absence is a nil pointer
@@ -154,7 +155,7 @@ var (
 	menuHTTP   = []*[]string{nil, lst("200"), lst("inherit", "418"), lst()}
 
 	flagNames  = []string{"go", "tags", "tests", "checks", "goos", "pattern", "trimpath"}
-	patterns   = []string{"", "./top", "./dep ./mid", "./mid/... ./top"}
+	patterns   = []string{"", "./top", "./dep ./mid", "./mid/... ./top", "./... example.com/lib", "example.com/lib ./top"}
 	goValues   = []string{"module", "1.23", "1.24", "1.25", "1.26"}
 	chkValues  = []string{"", "all", "inherit,-SA1019", "SA*", "all,-U1000", "ST1003,SA4017,SA4023", "inherit,ST1003", "inherit,-SA4017,-ST1001"}
 	goModVals  = []string{"1.26.0", "1.23", "1.24"}
@@ -287,6 +288,9 @@ func genHistory(rt *rapid.T, maxSteps int, allowHTTP, both bool) *History {
 		p := 3
 		if name == "dep_broken" {
 			p = 15
+		}
+		if name == "dep_go126" {
+			p = 5
 		}
 		if rng(rt, "init_"+name, 0, p) == p {
 			st.Tree.On[name] = true
@@ -437,10 +441,37 @@ const modPath = "example.com/m"
 func (t Tree) render() map[string]string {
 	on := t.On
 	f := map[string]string{}
-	f["m/go.mod"] = "module " + modPath + "\n\ngo " + t.GoMod + "\n"
+	// the module requires a second module that lives next to it (replace directive); it can be
+	// linted from here by import path and has a configuration file level of its own ("lib")
+	f["m/go.mod"] = "module " + modPath + "\n\ngo " + t.GoMod + "\n\nrequire example.com/lib v0.0.0\n\nreplace example.com/lib => ../lib\n"
+	f["lib/go.mod"] = "module example.com/lib\n\ngo 1.26.0\n"
+	f["lib/lib.go"] = `// Package lib is a module of its own, replaced by a directory next to the main module.
+package lib
+
+import "errors"
+
+// GetUserId is badly named if ID is an initialism.
+func GetUserId() int { return 1 }
+
+// Same compares x with itself.
+func Same(x int) bool { return x == x }
+
+// ErrLib has a capitalised message.
+var ErrLib = errors.New("Lib failed.")
+`
+	f["m/top/uselib.go"] = `package top
+
+import "example.com/lib"
+
+// L is lib.Same.
+var L = lib.Same
+`
 
 	pad := "\n// padding line one.\n// padding line two.\n"
 
+	if on["dep_go126"] {
+		f["m/dep/new126.go"] = "package dep\n\n// P points to 3 (new with an expression operand needs go1.26).\nvar P = new(3)\n"
+	}
 	f["m/dep/dep.go"] = "// Package dep is the leaf dependency.\npackage dep\n" + alt(on["dep_pad"], pad, "") + `
 import "errors"
 
@@ -628,6 +659,8 @@ func extTest(x int) bool { return x == x }
 			p = "staticcheck.conf"
 		case "root":
 			p = "m/staticcheck.conf"
+		case "lib":
+			p = "lib/staticcheck.conf"
 		default:
 			p = "m/" + level + "/staticcheck.conf"
 		}
@@ -636,7 +669,7 @@ func extTest(x int) bool { return x == x }
 	if t.Alt {
 		g := map[string]string{}
 		for p, c := range f {
-			if strings.HasPrefix(p, "m/") {
+			if strings.HasPrefix(p, "m/") || strings.HasPrefix(p, "lib/") {
 				p = "alt/" + p
 			}
 			g[p] = c
